@@ -17,6 +17,9 @@
 //!       `stream(rng, idx, max_size)` = the mixed stream used by the C01-C03 run.
 //! * data-updating stream: `DataUpdate`, `gen_update_case`, `apply_update`, `run_update` (first solve,
 //!       update_P/q/A/b in place, re-solve; judged against the data after the update), `collect(&solver)`
+//! * `gen_refused_case` (updates that must be refused: presolve active, wrong lengths, out-of-range index),
+//!       `gen_partial_case` (partial (index,value) updates, shuffled / descending / repeated indices, tuple and
+//!       zip forms), `apply_update_model` (model of the update calls incl. refusals), `solve_counting`
 //! * update sequences on one solver object: `run_updates`, `apply_updates`, `gen_transition_case`
 //!       (feasible -> infeasible, infeasible -> feasible -> infeasible, ... via update_b / update_q / update_A)
 //! * `gen_infbound_case` — presolve on, right-hand sides of both signs around the infinity bound
@@ -219,6 +222,9 @@ pub struct Settings {
     /// the process-global "infinity" bound in force for this solve (clarabel::set_infinity); the
     /// runner sets it before building the solver and restores the default afterwards (runs are serial)
     pub infbound: f64,
+    /// CoreSettings::min_terminate_step_length / min_switch_step_length (defaults 1e-4 / 1e-1)
+    pub min_terminate_step_length: f64,
+    pub min_switch_step_length: f64,
 }
 impl Default for Settings {
     fn default() -> Self {
@@ -228,7 +234,7 @@ impl Default for Settings {
             tol_gap_abs: 1e-8, tol_gap_rel: 1e-8, tol_feas: 1e-8, tol_infeas_abs: 1e-8, tol_infeas_rel: 1e-8, tol_ktratio: 1e-6,
             reduced_tol_gap_abs: 5e-5, reduced_tol_gap_rel: 5e-5, reduced_tol_feas: 1e-4,
             reduced_tol_infeas_abs: 5e-12, reduced_tol_infeas_rel: 5e-5, reduced_tol_ktratio: 1e-4,
-            max_iter: 200, time_limit: f64::INFINITY, infbound: 1e20,
+            max_iter: 200, time_limit: f64::INFINITY, infbound: 1e20, min_terminate_step_length: 1e-4, min_switch_step_length: 1e-1,
         }
     }
 }
@@ -256,6 +262,8 @@ impl Settings {
         s.reduced_tol_ktratio = self.reduced_tol_ktratio;
         s.max_iter = self.max_iter;
         s.time_limit = self.time_limit;
+        s.min_terminate_step_length = self.min_terminate_step_length;
+        s.min_switch_step_length = self.min_switch_step_length;
         s.max_threads = 1;
         s.chordal_decomposition_enable = false; // excluded by the properties' quantifier
         s
@@ -268,7 +276,7 @@ impl Settings {
                "reduced_tol_gap_abs": self.reduced_tol_gap_abs, "reduced_tol_gap_rel": self.reduced_tol_gap_rel,
                "reduced_tol_feas": self.reduced_tol_feas, "reduced_tol_infeas_abs": self.reduced_tol_infeas_abs,
                "reduced_tol_infeas_rel": self.reduced_tol_infeas_rel, "reduced_tol_ktratio": self.reduced_tol_ktratio,
-               "max_iter": self.max_iter, "infbound": self.infbound,
+               "max_iter": self.max_iter, "infbound": self.infbound, "min_terminate_step_length": self.min_terminate_step_length, "min_switch_step_length": self.min_switch_step_length,
                "time_limit": if self.time_limit.is_finite() { json!(self.time_limit) } else { json!("inf") }})
     }
     pub fn from_json(v: &Value) -> Settings {
@@ -284,6 +292,8 @@ impl Settings {
             reduced_tol_infeas_rel: f("reduced_tol_infeas_rel"), reduced_tol_ktratio: f("reduced_tol_ktratio"),
             max_iter: v["max_iter"].as_u64().unwrap() as u32,
             infbound: v["infbound"].as_f64().unwrap_or(1e20),
+            min_terminate_step_length: v["min_terminate_step_length"].as_f64().unwrap_or(1e-4),
+            min_switch_step_length: v["min_switch_step_length"].as_f64().unwrap_or(1e-1),
             time_limit: v["time_limit"].as_f64().unwrap_or(f64::INFINITY),
         }
     }
@@ -722,6 +732,12 @@ pub fn stream(rng: &mut Rng, idx: usize, max_size: usize) -> Problem {
         if rng.chance(2, 3) { p.settings.max_iter = 3 + rng.below(12) as u32; }
         p.label = format!("{} + wide asymmetric tolerances, objective x{:e}", p.label, sc);
     }
+    if idx % 20 == 19 || idx % 20 == 7 {
+        // stop on an undersized step: the small-step checkpoint fails as soon as alpha <= min_terminate
+        p.settings.min_terminate_step_length = *rng.pick(&[0.5, 0.9]);
+        p.settings.min_switch_step_length = 0.95;
+        p.label += " + min_terminate_step_length large";
+    }
     match fam {
         15 => { p.settings.max_iter = rng.below(6) as u32; p.label += " + tiny max_iter"; }
         16 => { p.settings.time_limit = 0.0; p.label += " + time_limit 0"; }
@@ -797,6 +813,10 @@ pub struct Outcome {
     pub presolver_keep: Option<Vec<bool>>,
     /// statuses of the earlier solves on the same solver object (update sequences)
     pub history: Vec<String>,
+    /// number of `iter += 1` events of the main loop seen by the trace hook (independent iteration count)
+    pub kkt_iterations: Option<u32>,
+    /// Ok / Err of every update call of the sequence, in call order
+    pub update_results: Vec<bool>,
     pub internal_m: usize,
     pub internal_n: usize,
 }
@@ -840,8 +860,19 @@ pub fn run_here(p: &Problem) -> Outcome {
     clarabel::set_infinity(p.settings.infbound);
     let mut solver = DefaultSolver::new(&Pm, &p.q, &Am, &p.b, &cones, p.settings.to_clarabel());
     clarabel::default_infinity();
+    let it = solve_counting(&mut solver);
+    let mut o = collect(&solver);
+    o.kkt_iterations = Some(it);
+    o
+}
+
+/// `solve()` under the trace hook; returns the number of main-loop iteration increments (`iter += 1`,
+/// "we only count iterations that produce a KKT update") — what an independent party counts.
+pub fn solve_counting(solver: &mut DefaultSolver<f64>) -> u32 {
+    use clarabel::verif_hooks::trace;
+    trace::start();
     solver.solve();
-    collect(&solver)
+    trace::take().iter().filter(|e| matches!(e, trace::Event::IterInc { .. })).count() as u32
 }
 
 /// Reads everything the checks look at out of a solver that has just finished `solve()`.
@@ -867,7 +898,7 @@ pub fn collect(solver: &DefaultSolver<f64>) -> Outcome {
         rollbacks: clarabel::verif_hooks::term::rollbacks(),
         dot_qx: dqx, dot_bz: dbz, dot_sz: dsz, dot_xpx: dxpx,
         presolver_keep: clarabel::verif_hooks::presolver_keep(&solver.data),
-        history: vec![],
+        history: vec![], kkt_iterations: None, update_results: vec![],
         internal_m: solver.data.m, internal_n: solver.data.n,
     }
 }
@@ -883,34 +914,88 @@ pub struct DataUpdate {
     pub b: Option<Vec<f64>>,
     pub p_vals: Option<Vec<f64>>,
     pub a_vals: Option<Vec<f64>>,
+    /// partial (index, value) updates; indices refer to the stored entries (`P.ents` / `A.ents` order,
+    /// i.e. the CSC nzval order) resp. to vector positions; applied in list order (a repeated index: last wins)
+    pub p_part: Option<PartUpd>,
+    pub a_part: Option<PartUpd>,
+    pub q_part: Option<PartUpd>,
+    pub b_part: Option<PartUpd>,
     /// iteration budget of the re-solve (None = unchanged)
     pub max_iter: Option<u32>,
 }
+#[derive(Clone, Debug, Default)]
+pub struct PartUpd {
+    pub idx: Vec<usize>,
+    pub vals: Vec<f64>,
+    /// false: the `(Vec<usize>, Vec<T>)` tuple form; true: the `zip(&index, &values)` iterator form
+    pub zip_form: bool,
+}
+impl PartUpd {
+    pub fn json(&self) -> Value { json!({"idx": self.idx, "vals": self.vals, "zip": self.zip_form}) }
+    pub fn from_json(v: &Value) -> Option<PartUpd> {
+        if !v.is_object() { return None; }
+        Some(PartUpd { idx: usize_vec(&v["idx"]), vals: f64_vec(&v["vals"]), zip_form: v["zip"].as_bool().unwrap_or(false) })
+    }
+}
 impl DataUpdate {
-    pub fn json(&self) -> Value { json!({"q": self.q, "b": self.b, "p_vals": self.p_vals, "a_vals": self.a_vals, "max_iter": self.max_iter}) }
+    pub fn json(&self) -> Value {
+        let pj = |x: &Option<PartUpd>| x.as_ref().map(|p| p.json()).unwrap_or(Value::Null);
+        json!({"q": self.q, "b": self.b, "p_vals": self.p_vals, "a_vals": self.a_vals, "max_iter": self.max_iter,
+               "p_part": pj(&self.p_part), "a_part": pj(&self.a_part), "q_part": pj(&self.q_part), "b_part": pj(&self.b_part)})
+    }
     pub fn from_json(v: &Value) -> DataUpdate {
         let ov = |k: &str| if v[k].is_array() { Some(f64_vec(&v[k])) } else { None };
-        DataUpdate { q: ov("q"), b: ov("b"), p_vals: ov("p_vals"), a_vals: ov("a_vals"), max_iter: v["max_iter"].as_u64().map(|x| x as u32) }
+        DataUpdate { q: ov("q"), b: ov("b"), p_vals: ov("p_vals"), a_vals: ov("a_vals"), max_iter: v["max_iter"].as_u64().map(|x| x as u32),
+                     p_part: PartUpd::from_json(&v["p_part"]), a_part: PartUpd::from_json(&v["a_part"]),
+                     q_part: PartUpd::from_json(&v["q_part"]), b_part: PartUpd::from_json(&v["b_part"]) }
     }
     pub fn kinds(&self) -> String {
         let mut k = vec![];
         if self.p_vals.is_some() { k.push("P"); }
+        if self.p_part.is_some() { k.push("P[part]"); }
         if self.q.is_some() { k.push("q"); }
+        if self.q_part.is_some() { k.push("q[part]"); }
         if self.a_vals.is_some() { k.push("A"); }
+        if self.a_part.is_some() { k.push("A[part]"); }
         if self.b.is_some() { k.push("b"); }
+        if self.b_part.is_some() { k.push("b[part]"); }
         k.join("+")
     }
 }
+/// MODEL of the update calls (what the user is entitled to expect): the calls are made in the order
+/// P, P[part], q, q[part], A, A[part], b, b[part]; a call is REFUSED as a whole — data unchanged, Err
+/// returned — when the presolver is active (some row dropped as an infinite bound), when a full vector
+/// has the wrong length, or when a partial update names an index out of range; otherwise it overwrites
+/// exactly the named entries.  Returns the data after the update and the expected Ok/Err per call.
+pub fn apply_update_model(p: &Problem, u: &DataUpdate) -> (Problem, Vec<bool>) {
+    let mut f = p.clone();
+    let mut exp = vec![];
+    let presolved = keep_rows(p).iter().any(|k| !*k);
+    let full_ok = |len: usize, want: usize| !presolved && (len == 0 || len == want);
+    let part_ok = |pu: &PartUpd, want: usize| !presolved && pu.idx.iter().all(|i| *i < want) && pu.idx.len() == pu.vals.len();
+    if let Some(v) = &u.p_vals { let ok = full_ok(v.len(), f.P.ents.len()); exp.push(ok); if ok && !v.is_empty() { for (e, x) in f.P.ents.iter_mut().zip(v) { e.2 = *x; } } }
+    if let Some(pu) = &u.p_part { let ok = part_ok(pu, f.P.ents.len()); exp.push(ok); if ok { for (i, x) in pu.idx.iter().zip(&pu.vals) { f.P.ents[*i].2 = *x; } } }
+    if let Some(v) = &u.q { let ok = full_ok(v.len(), f.q.len()); exp.push(ok); if ok && !v.is_empty() { f.q = v.clone(); } }
+    if let Some(pu) = &u.q_part { let ok = part_ok(pu, f.q.len()); exp.push(ok); if ok { for (i, x) in pu.idx.iter().zip(&pu.vals) { f.q[*i] = *x; } } }
+    if let Some(v) = &u.a_vals { let ok = full_ok(v.len(), f.A.ents.len()); exp.push(ok); if ok && !v.is_empty() { for (e, x) in f.A.ents.iter_mut().zip(v) { e.2 = *x; } } }
+    if let Some(pu) = &u.a_part { let ok = part_ok(pu, f.A.ents.len()); exp.push(ok); if ok { for (i, x) in pu.idx.iter().zip(&pu.vals) { f.A.ents[*i].2 = *x; } } }
+    if let Some(v) = &u.b { let ok = full_ok(v.len(), f.b.len()); exp.push(ok); if ok && !v.is_empty() { f.b = v.clone(); } }
+    if let Some(pu) = &u.b_part { let ok = part_ok(pu, f.b.len()); exp.push(ok); if ok { for (i, x) in pu.idx.iter().zip(&pu.vals) { f.b[*i] = *x; } } }
+    if let Some(k) = u.max_iter { f.settings.max_iter = k; }
+    (f, exp)
+}
 /// The user's data after the update: what the re-solve's result must be judged against.
 pub fn apply_update(p: &Problem, u: &DataUpdate) -> Problem {
-    let mut f = p.clone();
-    if let Some(q) = &u.q { f.q = q.clone(); }
-    if let Some(b) = &u.b { f.b = b.clone(); }
-    if let Some(v) = &u.p_vals { for (e, x) in f.P.ents.iter_mut().zip(v) { e.2 = *x; } }
-    if let Some(v) = &u.a_vals { for (e, x) in f.A.ents.iter_mut().zip(v) { e.2 = *x; } }
-    if let Some(k) = u.max_iter { f.settings.max_iter = k; }
+    let (mut f, _) = apply_update_model(p, u);
     f.label = format!("{} ; then update_{} and re-solve", p.label, u.kinds());
     f
+}
+/// expected Ok/Err of every update call of a sequence (model)
+pub fn expected_update_results(p: &Problem, us: &[DataUpdate]) -> Vec<bool> {
+    let mut f = p.clone();
+    let mut all = vec![];
+    for u in us { let (g, e) = apply_update_model(&f, u); f = g; all.extend(e); }
+    all
 }
 /// Base problem + update for the data-updating stream.  Objective scaled by a power of two so the
 /// equilibration's cost scaling c is far from 1; equilibration on, presolve off (updates are refused
@@ -1018,7 +1103,7 @@ pub fn run_update(p: &Problem, u: &DataUpdate, watchdog_s: f64) -> Outcome { run
 /// The user's data after a whole sequence of updates.
 pub fn apply_updates(p: &Problem, us: &[DataUpdate]) -> Problem {
     let mut f = p.clone();
-    for u in us { let l = f.label.clone(); f = apply_update(&f, u); f.label = format!("{} ; update_{}", l, u.kinds()); }
+    for u in us { let l = f.label.clone(); f = apply_update_model(&f, u).0; f.label = format!("{} ; update_{}", l, u.kinds()); }
     f.label = format!("{} ; re-solve (same solver object, {} updates)", f.label, us.len());
     f
 }
@@ -1036,20 +1121,44 @@ pub fn run_updates(p: &Problem, us: &[DataUpdate], watchdog_s: f64) -> Outcome {
             clarabel::default_infinity();
             solver.solve();
             let mut history = vec![format!("{:?}", solver.solution.status)];
+            let mut results: Vec<bool> = vec![];
+            let mut it = 0u32;
+            fn mpart(solver: &mut DefaultSolver<f64>, pu: &PartUpd, is_p: bool) -> bool {
+                if pu.zip_form {
+                    let z = std::iter::zip(pu.idx.iter(), pu.vals.iter());
+                    if is_p { solver.update_P(&z).is_ok() } else { solver.update_A(&z).is_ok() }
+                } else {
+                    let t = (pu.idx.clone(), pu.vals.clone());
+                    if is_p { solver.update_P(&t).is_ok() } else { solver.update_A(&t).is_ok() }
+                }
+            }
+            fn vpart(solver: &mut DefaultSolver<f64>, pu: &PartUpd, is_q: bool) -> bool {
+                if pu.zip_form {
+                    let z = std::iter::zip(pu.idx.iter(), pu.vals.iter());
+                    if is_q { solver.update_q(&z).is_ok() } else { solver.update_b(&z).is_ok() }
+                } else {
+                    let t = (pu.idx.clone(), pu.vals.clone());
+                    if is_q { solver.update_q(&t).is_ok() } else { solver.update_b(&t).is_ok() }
+                }
+            }
             for (k, u) in us.iter().enumerate() {
-                let mut ok = true;
-                if let Some(v) = &u.p_vals { ok &= solver.update_P(v).is_ok(); }
-                if let Some(v) = &u.q { ok &= solver.update_q(v).is_ok(); }
-                if let Some(v) = &u.a_vals { ok &= solver.update_A(v).is_ok(); }
-                if let Some(v) = &u.b { ok &= solver.update_b(v).is_ok(); }
-                if !ok { return Outcome { run: "update-refused".into(), ..Default::default() }; }
+                if let Some(v) = &u.p_vals { results.push(solver.update_P(v).is_ok()); }
+                if let Some(pu) = &u.p_part { results.push(mpart(&mut solver, pu, true)); }
+                if let Some(v) = &u.q { results.push(solver.update_q(v).is_ok()); }
+                if let Some(pu) = &u.q_part { results.push(vpart(&mut solver, pu, true)); }
+                if let Some(v) = &u.a_vals { results.push(solver.update_A(v).is_ok()); }
+                if let Some(pu) = &u.a_part { results.push(mpart(&mut solver, pu, false)); }
+                if let Some(v) = &u.b { results.push(solver.update_b(v).is_ok()); }
+                if let Some(pu) = &u.b_part { results.push(vpart(&mut solver, pu, false)); }
                 if let Some(k) = u.max_iter { solver.settings.max_iter = k; }
                 clarabel::verif_hooks::term::reset();
-                solver.solve();
+                it = solve_counting(&mut solver);
                 if k + 1 < us.len() { history.push(format!("{:?}", solver.solution.status)); }
             }
             let mut o = collect(&solver);
             o.history = history;
+            o.update_results = results;
+            if !us.is_empty() { o.kkt_iterations = Some(it); }
             o
         });
         let _ = tx.send(r);
@@ -1109,6 +1218,116 @@ pub fn gen_transition_case(rng: &mut Rng, idx: usize, max_size: usize) -> (Probl
     base.class = format!("transition{}", mode);
     base.label = format!("transition mode {} from {}", mode, inf.label);
     (base, us)
+}
+
+/// REFUSED updates followed by a solve: the solver must still certify the ORIGINAL data.  Mode (drawn from
+/// [0,1,0,2,0,3,1,4,0,5][idx % 10]):
+///  0,1 presolve active (an infinite bound dropped): update_q (full) / update_b, update_A, update_P, partial forms
+///  2 wrong-length q   3 wrong-length b   4 wrong-length P / A value vectors   5 partial update with an
+///  out-of-range FIRST index (nothing may be written).  The candidate data are genuinely different (a
+///  dual-feasible shift of q, a feasible shift of b, scaled matrices), so a refusal that leaks data changes
+///  the solution.
+pub fn gen_refused_case(rng: &mut Rng, idx: usize, max_size: usize) -> (Problem, Vec<DataUpdate>) {
+    let sym: [&str; 3] = ["zero", "nn", "soc"];
+    let all: [&str; 5] = ["zero", "nn", "soc", "exp", "pow"];
+    let n = 1 + rng.below((max_size / 5).max(2));
+    let tm = 1 + rng.below(2 * n + 2);
+    let kinds: &[&str] = if rng.chance(2, 3) { &sym } else { &all };
+    let cones = sample_cones(rng, tm, kinds);
+    let mode = [0usize, 1, 0, 2, 0, 3, 1, 4, 0, 5][idx % 10];
+    let mut p = gen_feasible(rng, n, cones);
+    p.settings = sample_settings(rng);
+    p.settings.equilibrate = true;
+    p.p_full = false;
+    if mode <= 1 { p.settings.presolve = true; let k = 1 + rng.below(2); add_inf_bounds(rng, &mut p, k); } else { p.settings.presolve = false; }
+    if rng.chance(1, 2) { badly_scale(rng, &mut p, 6); }
+    let (n, m) = (p.n(), p.m());
+    let dz = concat_interior(rng, &p.cones, true);
+    let t = p.A.tmul_vec(&dz);
+    let q2: Vec<f64> = (0..n).map(|j| p.q[j] * 3.0 - t[j] + small_int(rng, 1, 3)).collect();
+    let dx: Vec<f64> = (0..n).map(|_| small_int(rng, -2, 2)).collect();
+    let ax = p.A.mul_vec(&dx);
+    let b2: Vec<f64> = (0..m).map(|i| if p.b[i].abs() < 1e19 { p.b[i] + ax[i] + 1.0 } else { p.b[i] }).collect();
+    let a2: Vec<f64> = p.A.ents.iter().map(|e| e.2 * 2.0).collect();
+    let p2: Vec<f64> = p.P.ents.iter().map(|e| e.2 * 3.0 + 1.0).collect();
+    let mut u = DataUpdate::default();
+    match mode {
+        0 => { u.q = Some(q2); }
+        1 => match rng.below(4) {
+            0 => { u.b = Some(b2); }
+            1 => { u.a_vals = Some(a2); u.q = Some(q2); }
+            2 => { u.p_vals = Some(p2); u.q_part = Some(PartUpd { idx: (0..n).collect(), vals: q2, zip_form: rng.chance(1, 2) }); }
+            _ => { u.a_part = Some(PartUpd { idx: (0..p.A.ents.len()).rev().collect(), vals: a2.iter().rev().cloned().collect(), zip_form: rng.chance(1, 2) }); u.b_part = Some(PartUpd { idx: (0..m).collect(), vals: b2, zip_form: false }); }
+        },
+        2 => { let mut v = q2; if rng.chance(1, 2) { v.push(1.0); } else { v.pop(); if v.is_empty() { v = vec![1.0, 2.0]; } } u.q = Some(v); }
+        3 => { let mut v = b2; v.push(7.0); u.b = Some(v); }
+        4 => { if !p.P.ents.is_empty() && rng.chance(1, 2) { let mut v = p2; v.push(1.0); u.p_vals = Some(v); } else { let mut v = a2; v.push(1.0); u.a_vals = Some(v); } }
+        _ => {
+            let nz = p.A.ents.len();
+            let mut idxs: Vec<usize> = vec![nz + 3]; idxs.extend(0..nz);
+            let mut vals = vec![5.0]; vals.extend(a2.iter());
+            u.a_part = Some(PartUpd { idx: idxs, vals, zip_form: rng.chance(1, 2) });
+            let mut qi: Vec<usize> = vec![n]; qi.extend(0..n);
+            let mut qv = vec![1.0]; qv.extend(q2.iter());
+            u.q_part = Some(PartUpd { idx: qi, vals: qv, zip_form: rng.chance(1, 2) });
+        }
+    }
+    p.class = format!("refused{}", mode);
+    p.label = format!("refused-update mode {} on {}", mode, p.label);
+    (p, vec![u])
+}
+
+/// PARTIAL (index, value) updates of A and P with index lists that are shuffled, descending or contain
+/// repeats (tuple and zip forms), equilibration on, columns of very different magnitude (2^+-10), presolve
+/// off; targets: feasible (even idx) and infeasible (odd idx: primal / dual planted certificates).  Half of
+/// the lists rewrite the current values (user data unchanged), the others scale whole rows of elementwise
+/// cones by 2 or 1/2 together with b (planted structure preserved).
+pub fn gen_partial_case(rng: &mut Rng, idx: usize, max_size: usize) -> (Problem, Vec<DataUpdate>) {
+    let sym: [&str; 3] = ["zero", "nn", "soc"];
+    let n = 2 + rng.below((max_size / 5).max(2));
+    let tm = 2 + rng.below(2 * n + 2);
+    let cones = sample_cones(rng, tm, &sym);
+    let mut p = match idx % 4 { 1 => gen_primal_infeasible(rng, n, cones), 3 => gen_dual_infeasible(rng, n, cones), _ => gen_feasible(rng, n, cones) };
+    p.settings = sample_settings(rng);
+    p.settings.equilibrate = true;
+    p.settings.presolve = false;
+    p.p_full = false;
+    // columns of very different magnitude: x_j <- x_j / c_j
+    let cs: Vec<f64> = (0..p.n()).map(|_| 2f64.powi(*rng.pick(&[-10, -6, 0, 6, 10]))).collect();
+    for e in p.A.ents.iter_mut() { e.2 *= cs[e.1]; }
+    for e in p.P.ents.iter_mut() { e.2 *= cs[e.0] * cs[e.1]; }
+    for j in 0..p.n() { p.q[j] *= cs[j]; }
+    let m = p.m();
+    let nz = p.A.ents.len();
+    let mut order: Vec<usize> = (0..nz).collect();
+    match rng.below(3) { 0 => rng.shuffle(&mut order), 1 => order.reverse(), _ => { rng.shuffle(&mut order); let k = order.len() / 2; order.truncate(k.max(1)); } }
+    let mut u = DataUpdate::default();
+    let mut rowf = vec![1.0; m];
+    if rng.chance(1, 2) {
+        let mut i0 = 0;
+        for c in &p.cones { for k in 0..c.dim() { if c.elementwise() && rng.chance(1, 2) { rowf[i0 + k] = *rng.pick(&[2.0, 0.5]); } } i0 += c.dim(); }
+        // rows with a factor must be rewritten completely: append their entries
+        for (k, e) in p.A.ents.iter().enumerate() { if rowf[e.0] != 1.0 && !order.contains(&k) { order.push(k); } }
+        u.b = Some((0..m).map(|i| p.b[i] * rowf[i]).collect());
+    }
+    let mut idxs = vec![];
+    let mut vals = vec![];
+    for &k in &order {
+        let e = p.A.ents[k];
+        if rng.chance(1, 5) { idxs.push(k); vals.push(e.2 * 17.0 + 3.0); } // a repeat: this first value must be overwritten
+        idxs.push(k); vals.push(e.2 * rowf[e.0]);
+    }
+    if !idxs.is_empty() { u.a_part = Some(PartUpd { idx: idxs, vals, zip_form: rng.chance(1, 2) }); }
+    if !p.P.ents.is_empty() && rng.chance(1, 2) {
+        let mut po: Vec<usize> = (0..p.P.ents.len()).collect();
+        if rng.chance(1, 2) { po.reverse(); } else { rng.shuffle(&mut po); }
+        let f = *rng.pick(&[1.0, 2.0]);
+        u.p_part = Some(PartUpd { idx: po.clone(), vals: po.iter().map(|k| p.P.ents[*k].2 * f).collect(), zip_form: rng.chance(1, 2) });
+    }
+    if rng.chance(1, 3) { u.max_iter = Some(3 + rng.below(6) as u32); }
+    p.class = format!("partial{}", idx % 4);
+    p.label = format!("partial-update on {} + columns x2^+-10", p.label);
+    (p, vec![u])
 }
 
 // ------------------------------------------------------------------------------------------
